@@ -604,6 +604,20 @@ def correspondence(ctx):
 
 # --------------------------------------------------------------------------- oracle
 def _gen_fd_case(ctx, from_data):
+    case = _gen_fd_case0(ctx, from_data)
+    if case is not None and ctx.rng.random() < 0.5:
+        # the record's units are free: the Hankel matrix (and with it the factor) may be many orders of magnitude away
+        # from 1; the frequency variance does not depend on that
+        a = 10.0 ** ctx.rng.uniform(-7, 4)
+        case["H"] = case["H"] * (a * a)
+        if "Y" in case:
+            case["Y"] = case["Y"] * a
+        case["amplitude"] = a
+        ctx.count("oracle_amplitude_scaled")
+    return case
+
+
+def _gen_fd_case0(ctx, from_data):
     rng = ctx.rng
     g = ctx.nprng()
     l = rng.randint(1, 3)
